@@ -242,6 +242,7 @@ pub assume_specification [Ast::nodes] (a: &Ast) -> (r: &Block) ensures *r == ast
                             .leading_trivia()
                             .cloned()
                             .collect()""", "verif::hole_vec_token()", why="iterator chain: leading trivia of the first member's `local`"),
+            Between("leading_trivia.extend(", ".cloned(),\n                        );", "verif::extend_vec_token(&mut leading_trivia, verif::hole_vec_token());", why="iterator chain: the comments in front of the new first member's own `local` (filter closure)"),
             Hole("list.sort_by_key(|key| key.0.clone());", "verif_sort::sort_by_name(&mut list);", kind="wrapper", why="slice::sort_by_key with a closure (stable sort by name: class B)"),
             Before("let block = block.clone().with_stmts(stmts);", "proof { assert(all_parts.take(all_parts.len() as int) =~= all_parts); assert(sorted_from(ctx0, block_stmts(&ast_nodes(input_ast)), stmts@)); }"),
             Hole("""let block = block.clone().with_stmts(stmts);
